@@ -1,10 +1,10 @@
 SPECIFICATION Spec
 CONSTANTS
-  NV = 2
-  StabV = {2}
+  NV = 3
+  StabV = {3}
   HasHf = FALSE
-  Absent0 = {}
-  Admin = FALSE
+  Absent0 <- AbsMidStab
+  Admin = TRUE
   Cmds = {}
   Rewrites = FALSE
   NP = 2
@@ -12,15 +12,15 @@ CONSTANTS
   SkipQueue = FALSE
   Faults = FALSE
   FaultKinds = {"crash", "reject", "third"}
-  MaxC = 9
+  MaxC = 40
   RepStatuses = {"SUCCESSFUL", "FAILED"}
   Atomic = TRUE
   ReportFine = FALSE
   AutoApprove = TRUE
-  Opts = {}
-  ReportOnce = TRUE
-  MaxLevel = 11
-  EmitJson = FALSE
+  Opts = {"byp", "wait", "unwait", "nooct"}
+  ReportOnce = FALSE
+  MaxLevel = 100
+  EmitJson = TRUE
   PruneOnlyOwned = FALSE
   PushOnlyChanged = FALSE
   AtomicPush = TRUE
@@ -28,13 +28,4 @@ CONSTANTS
   FixDirect = TRUE
 CONSTRAINT Bound
 VIEW View
-INVARIANT C01_Incl
-INVARIANT C02_AllOrNone
-INVARIANT C05_Select
-INVARIANT C19_Children
-PROPERTY C03_Green
-PROPERTY C08_FF
-PROPERTY C08_Foreign
-PROPERTY C12_Held
-PROPERTY C20_EntryFate
 CHECK_DEADLOCK FALSE
